@@ -68,6 +68,19 @@ type Case struct {
 	Goos    string `json:"goos"`
 	Goarch  string `json:"goarch"`
 	OutPath bool   `json:"out_path"` // explicit output path instead of a temporary file
+	// PreLen, if not nil and OutPath is set, is the length of a file that
+	// already exists at the output path before the call (content: preContent).
+	PreLen *int `json:"pre_len,omitempty"`
+}
+
+// preContent is the content of a pre-existing output file of length n: a
+// pattern no archive entry of the harness contains.
+func preContent(n int) []byte {
+	b := make([]byte, n)
+	for i := range b {
+		b[i] = "<stale>"[i%7]
+	}
+	return b
 }
 
 // Reply is what the child observed.
@@ -177,9 +190,21 @@ func child() {
 			if c.OutPath {
 				outPath = filepath.Join(outDir, "agent-output")
 				os.Remove(outPath)
+				if c.PreLen != nil {
+					// a previous extraction (or anything else) is already there
+					if err := os.WriteFile(outPath, preContent(*c.PreLen), 0o600); err != nil {
+						r.Bug = err.Error()
+					}
+				}
 			}
-			p, err := agent.ExecutableForPlatform(c.Goos, c.Goarch, outPath)
-			if err != nil {
+			var p string
+			var err error
+			if r.Bug == "" {
+				p, err = agent.ExecutableForPlatform(c.Goos, c.Goarch, outPath)
+			}
+			if r.Bug != "" {
+				// harness-side failure, reported as such
+			} else if err != nil {
 				r.Err = err.Error()
 				if p != "" {
 					r.Bug = "path returned together with an error"
@@ -338,6 +363,49 @@ func isFile(s Slot) bool {
 	return false
 }
 
+// expectLen is the length of the entry a lookup is expected to extract (the
+// first entry named goos_goarch of the first location holding an archive), used
+// only to choose and label pre-existing output lengths; 12 if there is none.
+func expectLen(c Case) int {
+	name := c.Goos + "_" + c.Goarch
+	slots := []Slot{c.Exe}
+	if c.InBin {
+		slots = append(slots, c.Lib)
+	}
+	for _, s := range slots {
+		if s.Kind == "archive" || s.Kind == "linkarchive" {
+			for _, e := range s.Entries {
+				if e.Name == name {
+					return len(e.Data)
+				}
+			}
+		}
+	}
+	return 12
+}
+
+// withPre gives a case with an explicit output path a pre-existing output file:
+// variant 0 none, 1 longer, 2 shorter (possibly empty), 3 equal length, 4 much longer.
+func withPre(c Case, variant int) Case {
+	if !c.OutPath || variant == 0 {
+		return c
+	}
+	want := expectLen(c)
+	var n int
+	switch variant {
+	case 1:
+		n = want + 1 + want/2
+	case 2:
+		n = want / 2
+	case 3:
+		n = want
+	default:
+		n = want + 40
+	}
+	c.PreLen = &n
+	return c
+}
+
 const header = "From Coq Require Import List String Bool.\nImport ListNotations.\nFrom Mv Require Import Common.Bytes Model.Bundle Harness.BundleH.\nLocal Open Scope string_scope.\nLocal Open Scope list_scope."
 
 // ---------------------------------------------------------------- generation
@@ -356,7 +424,7 @@ func main() {
 		*fixed = true // same as -fixed; lets a scratch-worktree run select the repaired model without editing props/C46.json
 	}
 	w := hx.NewWriter(cfg, header, "bcase", "bundle_failures", 200)
-	w.Rule = "a case = (expected loop variant, layout (bin/ or not), what is at the bundle path in the executable's directory and in ../libexec, goos, goarch, outcome of the real agent.ExecutableForPlatform: error class or bytes+owner-exec bit of the produced file); distinct = distinct Coq terms; non-trivial = libexec is searched, at least one location holds a regular file and the other is not absent (the locations interact)"
+	w.Rule = "a case = (expected loop variant, layout (bin/ or not), what is at the bundle path in the executable's directory and in ../libexec, goos, goarch, for an explicit output path the content it already holds (none / longer / shorter / equal length), outcome of the real agent.ExecutableForPlatform: error class or the complete bytes + owner-exec bit of the file found at the returned path); distinct = distinct Coq terms; non-trivial = libexec is searched, at least one location holds a regular file and the other is not absent (the locations interact)"
 
 	root, err := os.MkdirTemp("", "verif-")
 	if err != nil {
@@ -410,8 +478,24 @@ func main() {
 			tags = append(tags, "both-hold-a-file")
 		}
 		nt := c.InBin && (isFile(c.Exe) || isFile(c.Lib)) && c.Exe.Kind != "absent" && c.Lib.Kind != "absent"
-		coq := fmt.Sprintf("(%s, In_ %s %s %s %s %s, %s)", coqBool(*fixed), coqBool(c.InBin),
-			slotCoq(c.Exe), slotCoq(c.Lib), coretree.Str(c.Goos), coretree.Str(c.Goarch), o)
+		pre := "None"
+		if c.OutPath && c.PreLen != nil {
+			pre = "(Some " + coretree.Str(string(preContent(*c.PreLen))) + ")"
+			switch want := expectLen(c); {
+			case *c.PreLen > want:
+				tags = append(tags, "pre-existing-output:longer")
+			case *c.PreLen < want:
+				tags = append(tags, "pre-existing-output:shorter")
+			default:
+				tags = append(tags, "pre-existing-output:equal-length")
+			}
+		} else if c.OutPath {
+			tags = append(tags, "output:fresh-path")
+		} else {
+			tags = append(tags, "output:temporary-file")
+		}
+		coq := fmt.Sprintf("(%s, In_ %s %s %s %s %s %s, %s)", coqBool(*fixed), coqBool(c.InBin),
+			slotCoq(c.Exe), slotCoq(c.Lib), coretree.Str(c.Goos), coretree.Str(c.Goarch), pre, o)
 		w.Add(hx.Case{Coq: coq, Replay: c, Nontrivial: nt, Tags: tags, Origin: origin})
 	}
 
@@ -474,13 +558,13 @@ func main() {
 			for _, lk := range libKinds {
 				for pi, pf := range platforms {
 					n++
-					add(Case{InBin: inBin, Exe: mk("EXE", ek.kind, ek.has), Lib: mk("LIB", lk.kind, lk.has),
-						Goos: pf[0], Goarch: pf[1], OutPath: (n+pi)%2 == 0}, "exhaustive")
+					add(withPre(Case{InBin: inBin, Exe: mk("EXE", ek.kind, ek.has), Lib: mk("LIB", lk.kind, lk.has),
+						Goos: pf[0], Goarch: pf[1], OutPath: (n+pi)%2 == 0}, (n/2)%5), "exhaustive")
 				}
 			}
 		}
 	}
-	w.Extra["exhaustive_scope"] = fmt.Sprintf("2 layouts (bin/ and tools/) x %d kinds of content at the executable-directory bundle path x %d kinds at the libexec bundle path x 3 platforms (present, windows, unknown) = %d cases; archives on the two sides carry distinct contents and a duplicate entry name",
+	w.Extra["exhaustive_scope"] = fmt.Sprintf("2 layouts (bin/ and tools/) x %d kinds of content at the executable-directory bundle path x %d kinds at the libexec bundle path x 3 platforms (present, windows, unknown) = %d cases; archives on the two sides carry distinct contents and a duplicate entry name; half of the cases use an explicit output path, which cyclically is fresh or already holds a longer / shorter / equal-length / much longer file",
 		len(exeKinds), len(libKinds), n)
 
 	// Random structured cases.
@@ -592,7 +676,8 @@ func main() {
 			c.Lib.Entries[r.Intn(len(c.Lib.Entries))].Name = c.Goos + "_" + c.Goarch
 			c.Exe.Entries[r.Intn(len(c.Exe.Entries))].Name = c.Goos + "_" + c.Goarch
 		}
-		add(c, "random")
+		// an explicit output path already holds a file in 3 of 4 cases
+		add(withPre(c, r.Intn(8)%5), "random")
 	}
 	finish()
 }
